@@ -1,5 +1,29 @@
 package main
 
-// DTLCP scripted server: not available on this tree yet (dtlcp/verif_script.go is written by
-// the C08 work); scripted scenarios are skipped for the stack until then.
-func (l *dLink) scriptServer(cfg serverCfg) scriptPeer { return nil }
+// DTLCP scripted server (dtlcp/verif_script.go, build tag verif): same API as the TLCP one;
+// every record goes out as its own datagram, handshake messages carry the 12-byte DTLS header.
+
+import "gitee.com/Trisia/gotlcp/dtlcp"
+
+type dScript struct{ s *dtlcp.VerifScript }
+
+func (l *dLink) scriptServer(cfg serverCfg) scriptPeer {
+	return &dScript{dtlcp.NewVerifScript("server", l.se, l.ce.LocalAddr(), l.serverConfig(cfg))}
+}
+
+func (t *dScript) ReadKind() (string, error) {
+	ev, err := t.s.ReadMsg()
+	return ev.Kind, err
+}
+
+func (t *dScript) Send(kind string, o scriptOpts) error {
+	return t.s.Send(kind, &dtlcp.VerifSendOpts{Body: o.Body, Raw: o.Raw, Mutate: o.Mutate,
+		Certificates: o.Certificates, EmptyCerts: o.EmptyCerts, SignKey: o.SignKey,
+		SignClientRandom: o.SignClientRandom, SignServerRandom: o.SignServerRandom, SignEncCert: o.SignEncCert})
+}
+func (t *dScript) SendCCS() error             { return t.s.SendCCS() }
+func (t *dScript) SendAppData(p []byte) error { return t.s.SendAppData(p) }
+func (t *dScript) PeerFinishedOK() bool       { return t.s.PeerFinishedOK }
+func (t *dScript) WriteProtected() bool       { return t.s.WriteProtected() }
+func (t *dScript) HasMaster() bool            { return len(t.s.Master()) > 0 }
+func (t *dScript) HeaderLen() int             { return 12 }
